@@ -92,6 +92,7 @@ def main():
     ap.add_argument("--all-checks", action="store_true")
     ap.add_argument("--extra-checks", default="")
     ap.add_argument("--by-meta", action="store_true")
+    ap.add_argument("--tag", default="R4", help="name prefix of seeds kept from a --by-meta source (R4-<group>-<n>)")
     ap.add_argument("--related", action="store_true", help="also run the checks of the properties anchored in the files the patch touches")
     a = ap.parse_args()
     cands = []
@@ -119,7 +120,7 @@ def main():
                         pid = json.load(open(mp)).get("property", "C01")
                     except Exception:
                         pid = "C01"
-                    name = f"{pid}-r4{g[:4]}{x}"
+                    name = f"{a.tag}-{g}-{x}"
                     if not a.only or a.only in name:
                         cands.append((d, pid, name))
     else:
